@@ -195,6 +195,26 @@ def check(rep, an, tier):
                       construct=r.text()[:70], entry="optional_to", config=res.config,
                       msg=f"on the path guarded by {und} the magnitude of a unit-carrying input is returned without converting it to `{units}`: "
                           f"compatible but differently scaled units (mW, µm …) give wrong numbers")
+    # the 'flux' context transformations of the registry (the quantity route q.to('E', 'flux', domain=wl)): the wavelengths arrive as
+    # a quantity in any length unit; pint's own arithmetic converts them — their bare number must never be taken and relabelled
+    for tname in ("_irr2flux", "_flux2irr"):
+        if an.model.func(PINT, tname) is None:
+            rep.undecided("R-QTY", "context transformation found", where=PINT.replace(".", "/") + ".py", construct=tname, entry=tname)
+            continue
+        x = Val(data={"x"}, tags={"kind": "pintq", "has_units": True, "notnone": True}, term=("in", "x"))
+        dom = Val(data={"domain"}, tags={"kind": "pintq", "has_units": True, "notnone": True}, term=("in", "domain"))
+        ur = Val(data=frozenset(), tags={"kind": "ureg", "notnone": True}, term=("in", "unit_registry"))
+        res = an.run(f"{PINT}:{tname}", kws=dict(unit_registry=ur, x=x, domain=dom), spec=hooks(), config="quantity wavelengths")
+        raw = [ev for ev in res.events("raw_magnitude") if "domain" in ev.d["of"].flat().data or "x" in ev.d["of"].flat().data]
+        for ev in raw:
+            rep.violated("R-QTY", "context transformation keeps the units of its operands", where=ev.loc, construct=ev.text(), entry=tname,
+                         config=res.config,
+                         msg="the bare number of a unit-carrying operand is taken without converting it first: wavelengths given in µm, m or "
+                             "Å are then read as nanometres (off by 1e3, 1e9, 0.1) on the quantity route, unlike the plain-array functions")
+        if not raw:
+            v = res.value.flat()
+            rep.check("R-QTY", "context transformation keeps the units of its operands", {"x", "domain"} <= set(v.data), where=res.fn.loc(),
+                      construct=f"operands of {tname}", entry=tname, config=res.config, msg=f"result depends on {sorted(v.data)}")
     rep.advisory("np.apply_along_axis on a pint.Quantity raises TypeError / strips units (reported by an independent probe): the 'same numbers "
                  "with and without units' clause is not decided for axis != None")
     rep.require("R-QTY", 30)
@@ -258,7 +278,9 @@ def formula(rep, res, entry, want_deg, out_unit, table, dim_I, dim_E, fname, ru,
     for t in outs:
         if t[1] is not None:
             rep.check("R-FLOW", "the requested prefix scales the target unit", t[1], where=t[2].loc, construct=t[2].text()[:70], entry=entry,
-                      config=res.config)
+                      config=res.config,
+                      msg="the prefix that reaches the target unit is not the caller's text itself (absent, or a case-folded / otherwise "
+                          "non-injectively normalised image of it: 'M' mega and 'm' milli, 'P' peta and 'p' pico then name the same unit)")
     nm = [ev for ev in res.events("call") if ev.d["callee"].name == "optional_to" and R.near(ev) and len(ev.d["args"]) > 1
           and ev.d["args"][1].known and ev.d["args"][1].const == "nm" and "wavelengths" in ev.d["args"][0].flat().data]
     rep.check("R-QTY", "wavelengths are converted to nm", bool(nm), where=where, construct="optional_to(wavelengths, 'nm')", entry=entry,
